@@ -102,6 +102,12 @@ func init() {
 		Old: "\tif hasAlreadyClosed {\n\t\treturn nil\n\t}\n", New: "\tif hasAlreadyClosed {\n\t\treturn nil\n\t}\n\tctx.preRun()\n", Expect: "epilogue-registered-right-after-the-gate"})
 	seed(Seed{Name: "merger-folds-working-value-into-snapshot", Prop: "C13", Rule: "CRDT-SNAPSHOT", File: res + "crdt.go",
 		Old: "\t\t\t\t\tres.oldValue = res.oldValue.Merge(mergeVal)", New: "\t\t\t\t\tres.oldValue = res.oldValue.Merge(res.value)", Expect: "snapshot-takes-received-state-only"})
+	seed(Seed{Name: "monitor-conn-absolute-deadline", Prop: "C19", Rule: "DEADLINE-SCOPED", File: res + "fd.go",
+		Old: "\t\tgo m.server.ServeConn(conn)", New: "\t\t_ = conn.SetDeadline(time.Now().Add(failureDetectorTimeout))\n\t\tgo m.server.ServeConn(conn)", Expect: "ListenAndServe"})
+	seed(Seed{Name: "read-deadline-left-armed", Prop: "C06", Rule: "DEADLINE-SCOPED", File: res + "conn.go",
+		Old: "\tn, err = rw.conn.Read(data)\n\tif deadlineErr := rw.conn.SetReadDeadline(time.Time{}); deadlineErr != nil {\n\t\treturn n, deadlineErr\n\t}\n", New: "\tn, err = rw.conn.Read(data)\n", Expect: "readWriterConnTimeout.Read"})
+	seed(Seed{Name: "shutdown-test-under-state-change", Prop: "C19", Rule: "FD-FAILBRANCH", File: res + "fd.go",
+		Old: "new state = %v. Due to rpc call error: %v\", res.archetypeID, oldState, failed, err)\n\t\t\t}\n\t\t\tif err == rpc.ErrShutdown {\n\t\t\t\tres.reDial = true\n\t\t\t}\n", New: "new state = %v. Due to rpc call error: %v\", res.archetypeID, oldState, failed, err)\n\t\t\t\tif err == rpc.ErrShutdown {\n\t\t\t\t\tres.reDial = true\n\t\t\t\t}\n\t\t\t}\n", Expect: "shutdown-tested-for-every-rpc-error"})
 	seed(Seed{Name: "merge-second-loop-reuses-iterator", Prop: "C12", Rule: "ITER-FRESH", File: res + "aworset.go",
 		Old: "\ti = remK.Iterator()\n", New: "", Expect: "AWORSet.Merge"})
 }
